@@ -146,11 +146,11 @@ type VC struct {
 	// control-flow provenance of facts: marks[i] says that facts from index
 	// marks[i].from on were emitted while executing block marks[i].blk of the
 	// function under proof (-1: outside any block)
-	marks  []blkMark
-	topCon *Contract // contract of the function under proof
+	marks    []blkMark
+	topCon   *Contract    // contract of the function under proof
 	cutFacts map[int]bool // indices of facts assumed at cut points (value lemmas; frames do not need them)
-	curBlk int
-	anc    map[int]map[int]bool // block → blocks with a forward path to it (itself included)
+	curBlk   int
+	anc      map[int]map[int]bool // block → blocks with a forward path to it (itself included)
 }
 
 type blkMark struct{ from, blk int }
